@@ -16,10 +16,10 @@ RULE += '; plus warm nodes (a completed earlier read), mostly multi-segment file
 TECHNIQUE = "deterministic simulation: seeded schedules over a simulated network/reactor, byte-exact and independent-decoder oracles"
 LEVEL_TEXT = "seeded search over inputs, configurations and delivery schedules; sampling, not enumeration"
 LEVEL_NOTE = ("real: allmydata.client._Client, Uploader/Encoder/Tahoe2ServerSelector, downloader, StorageFarmBroker/NativeStorageServer, StorageServer; "
-              "stub: reactor, foolscap wire (SimRef, per-connection FIFO), os.urandom (seeded), CPU thread pool (synchronous), RSA keygen (pool); "
+              "stub: reactor, foolscap wire (SimRef, per-connection FIFO), os.urandom (seeded), CPU thread pool (simulated: synchronous, or completion as a reactor event after a drawn delay), RSA keygen (pool); "
               "trusted: oracles/sharecheck.py + oracles/refhash.py (hashlib, zfec, AES only)")
 REAL = ["allmydata.client._Client", "immutable.upload/encode/layout", "immutable.downloader.*", "immutable.filenode/literal", "storage_client", "storage.server"]
-STUB = ["reactor/time", "foolscap transport (SimNet/SimRef)", "os.urandom", "cputhreadpool (synchronous)"]
+STUB = ["reactor/time", "foolscap transport (SimNet/SimRef)", "os.urandom", "cputhreadpool (SimThreadPool: in a third of the runs the result is delivered by a reactor event after a drawn delay, otherwise synchronously)"]
 ASSUMPTIONS = ["per-connection FIFO delivery (TCP)", "PYTHONHASHSEED=0 is part of the replay key"]
 
 
